@@ -96,7 +96,9 @@ ADDENDA = {
 # clauses added in the second seeded round (DESIGN §9.8/§9.9)
 ADDENDA2 = {
     "C02": "Also: the mpmc-unbounded hand-off session (values bound to parked receivers at publish time) is unreachable on the live control-flow graph.",
-    "C04": "Also: a counted clone is born open (closed = constant false on every path that registers it).",
+    "C04": "Also: a counted clone is born open (closed = constant false on every path that registers it); a clone is registered only behind the not-closed edge of the source "
+           "handle's flag (a closed handle's clone does not revive its side); a Disconnected read off a waiter state stored by the closer is followed by a re-drain wherever the "
+           "channel has a buffer; oneshot observers read sender_count before the state.",
     "C05": "Also: where one notify can publish several items but wakes one waiter, consumers pass the wake on (live-CFG baton rule); a counted clone is born open, so the "
            "last-handle disconnect stays reachable.",
     "C03": "Also: the `valid` count of a claimed run is min(claimed, window_end.saturating_sub(ticket)) in both claim functions.",
